@@ -70,6 +70,7 @@ CATS = [
     (re.compile(r"end of script reached while .* command is not finished"), "EndUnfinished"),
     (re.compile(r"end of script reached while"), "EndExpected"),
     (re.compile(r"invalid UTF-8"), "InvalidUtf8"),
+    (re.compile(r"missing parameter for argument"), "MissingParam"),
 ]
 
 
